@@ -767,6 +767,7 @@ class Engine:
     def _violation(self, label, model):
         ins, ufs = self._model_inputs(model)
         self.violated[label] = self.violated.get(label, 0) + 1
+        self.path_violated = True
         if sum(1 for v in self.violations if v["label"] == label) < 1:
             self.violations.append({"label": label, "inputs": ins, "uf": ufs, "decisions": len(self.decisions)})
 
@@ -802,7 +803,19 @@ class Engine:
         self.installed.append((obj, name, vars(obj).get(name, _MISSING)))
         setattr(obj, name, value)
 
+    def on_exit(self, fn):
+        """cleanup to run when the path / replay ends"""
+        if not hasattr(self, "_cleanups") or self._cleanups is None:
+            self._cleanups = []
+        self._cleanups.append(fn)
+
     def unpatch_all(self):
+        for fn in reversed(getattr(self, "_cleanups", None) or []):
+            try:
+                fn()
+            except Exception:  # noqa: BLE001
+                pass
+        self._cleanups = []
         for obj, name, old in reversed(self.installed):
             if old is _MISSING:
                 try:
@@ -832,6 +845,7 @@ class Engine:
                 self.solver.set("random_seed", self.seed)
             self.inputs, self.uf_apps, self.obs = {}, {}, {}
             self.bv_obligations = []
+            self.path_violated = False
             self.n_paths += 1
             completed = False
             tracing = trace_functions and self.n_paths <= 3 and not _os.environ.get('PVX_NOTRACE')
@@ -867,7 +881,7 @@ class Engine:
             self.n_decisions += len(self.decisions)
             if completed:
                 self.n_completed += 1
-                if witness_fn is not None and normal_end and len(self.witnesses) < self.witness_cap and self.inputs:
+                if witness_fn is not None and normal_end and not self.path_violated and len(self.witnesses) < self.witness_cap and self.inputs:
                     if self._check() == "sat":
                         ins, ufs = self._model_inputs(self.solver.model())
                         self.unpatch_all()
